@@ -32,7 +32,7 @@ CONSTANTS
   InstallKinds = {"jump"}
   Faults = {}
   SiteReuse = TRUE
-  MaxLives = 2
+  MaxLives = 1
   Gates = {"ok"}
   MaxInstalls = 2
 CONSTRAINT CanonDrop
